@@ -1,6 +1,7 @@
 package main
 
 import (
+	"net/url"
 	"encoding/json"
 	"fmt"
 	"hash/fnv"
@@ -336,6 +337,9 @@ func c11Gen(r *Rand, tier string, emit func(op any)) {
 				t += Pick(r, []int64{0, 1, 1e8, 5e8, 1e9 - 1, 1e9, 1e9 + 1, 3e9})
 			}
 			e := c11Entry{L: Pick(r, []int{0, 0, 0, 1, -1, 2}), M: hx(p[0]), T: t, C: r.Intn(len(op.With))}
+			if i%3 == 0 {
+				e.L = Pick(r, []int{0, 4, 4, 5, 3, 2}) // a third of the programs also log Panic / Fatal / DPanic entries
+			}
 			if r.Chance(1, 5) {
 				e.M = hx(p[1])
 			}
@@ -616,6 +620,21 @@ type c11Clock struct{ now int64 }
 func (c *c11Clock) Now() time.Time                         { return time.Unix(0, c.now) }
 func (c *c11Clock) NewTicker(d time.Duration) *time.Ticker { return time.NewTicker(d) }
 
+type c11CountSink struct{ n int }
+
+func (s *c11CountSink) Write(p []byte) (int, error) { s.n++; return len(p), nil }
+func (s *c11CountSink) Sync() error                 { return nil }
+func (s *c11CountSink) Close() error                { return nil }
+
+type c11TermHook struct{ n *int }
+
+func (h c11TermHook) OnWrite(*zapcore.CheckedEntry, []zapcore.Field) { *h.n++ }
+
+var (
+	c11SinkOnce sync.Once
+	c11SinkCur  *c11CountSink
+)
+
 func c11Cfg(op c11Op) Result {
 	var hooks []c11HookCall
 	cfg := zap.Config{
@@ -632,7 +651,17 @@ func c11Cfg(op c11Op) Result {
 		}
 	}
 	clk := &c11Clock{}
-	root, err := cfg.Build(zap.WithClock(clk))
+	// "forwarded" is judged at the destination: a counting sink registered under its own scheme. Panic and Fatal entries are
+	// in scope too (custom hooks that return): the sampling decision applies to them like to any other entry.
+	c11SinkOnce.Do(func() {
+		must(zap.RegisterSink("zvc11", func(*url.URL) (zap.Sink, error) { return c11SinkCur, nil }))
+	})
+	sink := &c11CountSink{}
+	c11SinkCur = sink
+	cfg.OutputPaths = []string{"zvc11://count"}
+	cfg.ErrorOutputPaths = []string{}
+	term := 0
+	root, err := cfg.Build(zap.WithClock(clk), zap.WithPanicHook(c11TermHook{&term}), zap.WithFatalHook(c11TermHook{&term}))
 	must(err)
 	loggers := make([]*zap.Logger, len(op.With))
 	for i, p := range op.With {
@@ -652,16 +681,23 @@ func c11Cfg(op c11Op) Result {
 	}
 	kept, dropped := 0, 0
 	for i, e := range op.Es {
-		if e.L < -1 || e.L > 2 || e.C < 0 || e.C >= len(loggers) || c11Overflows(e.T, int64(time.Second)) {
+		if e.L < -1 || e.L > 5 || e.C < 0 || e.C >= len(loggers) || c11Overflows(e.T, int64(time.Second)) {
 			return Result{Impl: map[string]any{"out_of_scope": true}, Oracle: ok(), NoModel: true, Shape: "cfg/out-of-scope"}
 		}
 		msg := unhx(e.M)
 		clk.now = e.T
 		hooks = hooks[:0]
+		before, termBefore := sink.n, term
 		ce := loggers[e.C].Check(zapcore.Level(int8(e.L)), string(msg))
-		fwd := ce != nil
 		if ce != nil {
 			ce.Write()
+		}
+		fwd := sink.n > before
+		if sink.n > before+1 {
+			fail(bad("C11:forwarded-twice", "config path: entry %d reached the sink %d times", i, sink.n-before))
+		}
+		if e.L >= 4 && term != termBefore+1 {
+			fail(bad("C11:terminal-hook", "config path: entry %d at level %d ran the terminal hook %d times", i, e.L, term-termBefore))
 		}
 		hs := []string{}
 		for _, h := range hooks {
